@@ -4,7 +4,7 @@ from __future__ import annotations
 import asyncio
 
 from graphql import ExecutionResult, parse, subscribe, validate
-from graphql.pyutils import is_awaitable
+from graphql.pyutils import AbortController, is_awaitable
 
 from sim import alloc
 from sim.harness import Request, attach, make_exc, pstr
@@ -294,6 +294,11 @@ def run_unit(seed=None, unit=None, tier="quick", stats=None):
         pull_gated = bool(st_tape.draw(2, "pull_gated"))
         policy = ("fresh", "lifo", "random")[st_tape.draw(3, "alloc")]
         al = alloc.SimAllocator(policy, st_tape)
+        # an abort signal that is passed but never triggered: every pull from the source and every
+        # awaitable is raced against it all the same, and nothing may change
+        idle_signal = st_tape.draw(3, "idle_signal") == 0
+        sub_kwargs = {"abort_signal": AbortController().signal} if idle_signal else {}
+        bump(stats, "knobs", "abort_signal_passed_never_triggered", 1 if idle_signal else 0)
         disp = Dispatcher(sim, world, events, planners, sp.none_event)
         sst = SourceState()
         src_exc = make_exc(sp.exc, "SRC", ())
@@ -324,7 +329,8 @@ def run_unit(seed=None, unit=None, tier="quick", stats=None):
             try:
                 out["waiting"] = "subscribe"
                 res = subscribe(schema, doc, {"__oid": 1, "__t": "Root", "__path": ()}, disp,
-                                variables, opname, subscribe_field_resolver=sub_resolver)
+                                variables, opname, subscribe_field_resolver=sub_resolver,
+                                **sub_kwargs)
                 if is_awaitable(res):
                     res = await res
                 out["waiting"] = None
